@@ -242,23 +242,8 @@ def enum_member(enum_name, v):
 def dtype_code(name):
     """representation code of a frame channel by numpy dtype name: int8 SSHORT, int16 SNORM, int32 SLONG, uint8 USHORT, uint16 UNORM,
     uint32 ULONG, float32 FSINGL, float64 FDOUBL; -1 for anything else (unsupported)"""
-    if name == 'int8':
-        return 12
-    if name == 'int16':
-        return 13
-    if name == 'int32':
-        return 14
-    if name == 'uint8':
-        return 15
-    if name == 'uint16':
-        return 16
-    if name == 'uint32':
-        return 17
-    if name == 'float32':
-        return 2
-    if name == 'float64':
-        return 7
-    return -1
+    return (12 if name == 'int8' else 13 if name == 'int16' else 14 if name == 'int32' else 15 if name == 'uint8' else
+            16 if name == 'uint16' else 17 if name == 'uint32' else 2 if name == 'float32' else 7 if name == 'float64' else -1)
 
 
 def code_size(code):
